@@ -98,6 +98,19 @@ pub fn menu() -> Vec<String> {
     .iter()
     .map(|s| s.to_string())
     .collect();
+    // overflowing negative floats (also as a non-final array element), strings around the lengths
+    // at which buffers / truncation thresholds sit, in ASCII and in 2-, 3- and 4-byte characters
+    for x in ["v = -1e999", "v = -1.0e400", "v = [1.0, -1e999, 2.0]", "v = [-1e999]", "v = -1e-999", "v = 1e999"] {
+        v.push(x.to_string());
+    }
+    v.push(format!("v = -{}.0", "9".repeat(320)));
+    v.push(format!("v = {}", "9".repeat(320)));
+    for n in [15usize, 16, 17, 21, 22, 31, 32, 33, 63, 64, 65, 127, 128, 129, 255, 256, 257] {
+        for unit in ["x", "ü", "名", "😬"] {
+            v.push(format!("v = \"{}\"", unit.repeat(n)));
+            v.push(format!("v = \"a{}\"", unit.repeat(n)));
+        }
+    }
     v.push(format!("v({deep})"));
     v.push(format!("v({})", (0..200).map(|i| format!("k{i} = {i}")).collect::<Vec<_>>().join(", ")));
     v
